@@ -247,6 +247,12 @@ func (d *documentLoader) loadDocumentFromHTTP(
 		}
 	}
 
+	// several Cache-Control header lines are one comma separated list
+	// (RFC 7230 3.2.2); the code below reads only the first line
+	if cc := res.Header.Values("Cache-Control"); len(cc) > 1 {
+		res.Header.Set("Cache-Control", strings.Join(cc, ", "))
+	}
+
 	reasons, resExpireTime, err := cachecontrol.CachableResponse(req, res,
 		cachecontrol.Options{})
 	// If there are no errors parsing cache headers and there are no
